@@ -125,7 +125,8 @@ func generalPlan(tier string, faults bool) []PlanItem {
 		PlanItem{scnCtxCancel("ctx-cancel-K1", K1, false), d},
 		PlanItem{scnCtxCancel("ctx-cancel-then-stop-K1", K1, true), d},
 		PlanItem{failingStop(scnStop("stop/stopctx+wait+to100ms", K1, Item{Do: "stopctx", WaitForDemote: true, Timeout: 100 * ms}, "A", "B")), d},
-		PlanItem{failingStop(scnStop("stop/stopctx+expired-ctx", K1, Item{Do: "stopctx", CtxTimeout: -1}, "A", "B")), d})
+		PlanItem{failingStop(scnStop("stop/stopctx+expired-ctx", K1, Item{Do: "stopctx", CtxTimeout: -1}, "A", "B")), d},
+		PlanItem{longDemote(scnStop("stop/stopctx+del+wait", K1, Item{Do: "stopctx", DeleteKey: true, WaitForDemote: true}, "A", "B", "C")), d})
 	items = append(items,
 		PlanItem{scnRestartLate("restart-late/stop-K1", K1, Item{Do: "stop"}), d},
 		PlanItem{scnRestartLate("restart-late/stopctx-K1", K1, Item{Do: "stopctx"}), d},
@@ -415,5 +416,17 @@ func scnCtxCancel(name string, k kfn, thenStop bool) *Scenario {
 	s.Horizon = t + s.TTL + 900*ms
 	s = s.faultFree()
 	s.SplitApply = true
+	return s
+}
+
+// longDemote: the stopped leader's OnDemote callback takes longer than the record's TTL
+// plus a failover (the shutdown waits for it: WaitForDemote), so whatever the shutdown does
+// after the callback happens when a successor already leads.
+func longDemote(s *Scenario) *Scenario {
+	s.Name += "/ondemote-outlasts-ttl"
+	for i := range s.Insts {
+		s.Insts[i].DemoteDur = s.TTL + 700*ms
+	}
+	s.Horizon += s.TTL + 700*ms + 1500*ms
 	return s
 }
